@@ -26,6 +26,7 @@ the code for all inputs:
       conditional expression as element)
   N12 a parameterless local function that only returns an expression (or an if/else of such returns) and is only ever
       called is inlined at its call sites
+  N15 h(a) for a module-level `first item with a units attribute, else D` helper h(*items) is getattr(a, 'units', D)
   N14 a direct call of an undecorated module-level function of the same module whose body is a single `return E` is E
       with the arguments substituted (when every argument is simple, or every parameter is used once and E has no inner call)
   N12b a local function that is only called as a statement with plain names as arguments, and neither returns a value
@@ -604,6 +605,77 @@ def _inline_trivial_helpers(tree, known=frozenset()):
     ast.fix_missing_locations(tree)
 
 
+def _inline_first_with_attribute(tree, known=frozenset()):
+    """N15: a module-level helper of the shape
+
+        def h(*items):                      # or h(items)
+            for x in items:
+                v = getattr(x, "A", None)
+                if v is not None:
+                    return v
+            return D
+
+    called with exactly ONE positional argument a (h(a), nothing starred, no keywords) is getattr(a, "A", D): the loop runs
+    once.  The two differ only for an object whose attribute A exists and is None; the form is applied for A == "units"
+    only, which is never None on the objects of this package that have it (unyt_array / unyt_quantity always carry a Unit;
+    the package's own idiom `getattr(out, "units", None) is not None` treats None and absence alike).  Calls with several
+    arguments are left alone."""
+    import copy as _copy
+
+    helpers = {}
+    for n in tree.body:
+        if not (isinstance(n, ast.FunctionDef) and not n.decorator_list and n.name not in known):
+            continue
+        a = n.args
+        if not (a.vararg and not (a.args or a.kwonlyargs or a.posonlyargs or a.kwarg)):
+            continue
+        b = [s_ for s_ in n.body if not (isinstance(s_, ast.Expr) and isinstance(s_.value, ast.Constant))]
+        if len(b) != 2 or not isinstance(b[0], ast.For) or not isinstance(b[1], ast.Return) or b[1].value is None or b[0].orelse:
+            continue
+        lp = b[0]
+        if not (isinstance(lp.iter, ast.Name) and lp.iter.id == a.vararg.arg and isinstance(lp.target, ast.Name) and len(lp.body) == 2):
+            continue
+        asg, tst = lp.body
+        if not (isinstance(asg, ast.Assign) and len(asg.targets) == 1 and isinstance(asg.targets[0], ast.Name) and isinstance(asg.value, ast.Call) and isinstance(asg.value.func, ast.Name) and asg.value.func.id == "getattr" and len(asg.value.args) == 3 and not asg.value.keywords):
+            continue
+        g = asg.value
+        if not (isinstance(g.args[0], ast.Name) and g.args[0].id == lp.target.id and isinstance(g.args[1], ast.Constant) and g.args[1].value == "units" and isinstance(g.args[2], ast.Constant) and g.args[2].value is None):
+            continue
+        v = asg.targets[0].id
+        if not (isinstance(tst, ast.If) and not tst.orelse and len(tst.body) == 1 and isinstance(tst.body[0], ast.Return) and isinstance(tst.body[0].value, ast.Name) and tst.body[0].value.id == v):
+            continue
+        t = tst.test
+        if not (isinstance(t, ast.Compare) and len(t.ops) == 1 and isinstance(t.ops[0], ast.IsNot) and isinstance(t.left, ast.Name) and t.left.id == v and isinstance(t.comparators[0], ast.Constant) and t.comparators[0].value is None):
+            continue
+        d = b[1].value
+        if not isinstance(d, (ast.Name, ast.Constant, ast.Attribute)):
+            continue
+        helpers[n.name] = d
+    counts = {}
+    for n in ast.walk(tree):
+        if isinstance(n, ast.FunctionDef):
+            counts[n.name] = counts.get(n.name, 0) + 1
+        if isinstance(n, ast.Name) and isinstance(n.ctx, ast.Store):
+            counts[n.id] = counts.get(n.id, 0) + 1
+    helpers = {k: v for k, v in helpers.items() if counts.get(k, 0) == 1}
+    if not helpers:
+        return
+
+    class R(ast.NodeTransformer):
+        def visit_Call(self, c):
+            self.generic_visit(c)
+            if isinstance(c.func, ast.Name) and c.func.id in helpers and len(c.args) == 1 and not c.keywords and not isinstance(c.args[0], ast.Starred):
+                new = ast.Call(func=ast.Name(id="getattr", ctx=ast.Load()), args=[c.args[0], ast.Constant(value="units"), _copy.deepcopy(helpers[c.func.id])], keywords=[])
+                return ast.copy_location(new, c)
+            return c
+
+    for i, st in enumerate(tree.body):
+        if isinstance(st, ast.FunctionDef) and st.name in helpers:
+            continue
+        tree.body[i] = R().visit(st)
+    ast.fix_missing_locations(tree)
+
+
 def _inline_tail_helpers(tree, known=frozenset()):
     """N14b: `t = h(a, b)` where h is an undecorated, non-recursive module-level function of the same module called with
     plain names, and every `return E` of h is in tail position (last statement of the body, of both arms of an if, of a
@@ -757,6 +829,7 @@ def normalise(tree, rel=None):
     known = known_functions(rel) if rel is not None else None
     _CURRENT_KNOWN = known if known is not None else frozenset()
     if known is not None:
+        _inline_first_with_attribute(tree, known)
         _inline_trivial_helpers(tree, known)
         _inline_tail_helpers(tree, known)
 
